@@ -135,6 +135,8 @@ class Bits:
 
     def _initialise(self, auto: Any, /, length: Optional[int], offset: Optional[int], **kwargs) -> None:
         if auto is not None:
+            if kwargs:
+                raise bitstring.CreationError(f"Only one initialiser can be used, but the keyword(s) {', '.join(kwargs)} were given as well as a positional initialiser.")
             if isinstance(auto, numbers.Integral):
                 # Initialise with s zero bits.
                 if auto < 0:
@@ -144,6 +146,8 @@ class Bits:
                 return
             self._setauto(auto, length, offset)
             return
+        if len(kwargs) > 1:
+            raise bitstring.CreationError(f"Only one initialiser can be used, but {len(kwargs)} were given: {', '.join(kwargs)}.")
         k, v = kwargs.popitem()
         if k == 'bytes':
             # Special case for bytes as we want to allow offsets and lengths to work only on creation.
